@@ -32,6 +32,8 @@ func c07SeqJob(tier string) *SeqJob {
 	for _, sp := range spells {
 		alphabet = append(alphabet, "get "+sp.label, "inc "+sp.label, "close "+sp.label, "child "+sp.label)
 	}
+	// derivations that add nothing (nil / empty tags, empty subscope name): the scope itself while it is live, inert once it is closed
+	alphabet = append(alphabet, "same A", "same C")
 	alphabet = append(alphabet, "pass")
 	exec := func(cached bool, shards uint) func(hist []int) (string, string, string, int) {
 		return func(hist []int) (cl, det, key string, steps int) {
@@ -119,6 +121,22 @@ func c07SeqJob(tier string) *SeqJob {
 						closeScope(ob.s)
 						ob.closed = true
 						closedLog = append(closedLog, lbl)
+					case "same":
+						ob := handle[lbl]
+						if ob == nil {
+							continue
+						}
+						for i, ch := range []tally.Scope{ob.s.Tagged(nil), ob.s.Tagged(map[string]string{}), ob.s.SubScope("")} {
+							if ob.closed && !tally.VerifIsNoop(ch) {
+								return "inertness-of-derived-scope", fmt.Sprintf("%v: derivation %d (0 Tagged(nil), 1 Tagged({}), 2 SubScope(\"\")) from a closed scope is not inert", histLabels(alphabet, hist), i)
+							}
+							ch.Counter("c").Inc(next)
+							ch.Timer("late").Record(1)
+							if !ob.closed {
+								want[ob.ident] += next
+							}
+							next *= 2
+						}
 					case "child":
 						ob := handle[lbl]
 						if ob == nil {
